@@ -626,9 +626,10 @@ class Interp:
                     sh.shadow.inherit = bool(v % 2)
             info.update(slide=sl, target=sh)
             return self._call("fmt_misc%d" % kind, f, rej + (NotImplementedError,))
-        # slide background
+        # background of the slide, of its layout or of its master (masters usually hold a p:bgRef)
         def f():
-            bg = sl.background.fill
+            owner = [sl, sl, sl.slide_layout, sl.slide_layout.slide_master][(shape_i + v) % 4]
+            bg = owner.background.fill
             if kind == 28:
                 bg.solid(); bg.fore_color.rgb = RGBColor(v, v, v)
             elif kind == 29:
